@@ -675,6 +675,59 @@ def run_dynamic(tier='quick', seed=0):
         if len(rec) != len(set(rec)):
             twice = [x for x in rec if rec.count(x) > 1]
             v('C06/doer-recurs-twice-in-a-cycle', inp, twice[:4], cls=dupcls(*[x[1] for x in twice]))
+    # doers that are EQUAL but not IDENTICAL to one already present: a doized bound method is a new object on every attribute
+    # access (w.workDo == w.workDo, w.workDo is not w.workDo); extending with it must do nothing, from outside and from inside a cycle
+    from hio.base import doing as _doing
+    for host_bm in ("doist", "dodoer"):
+        for frm_bm in ("outside", "inside"):
+            log_bm = []
+
+            class W:
+                @_doing.doize(tock=0.0)
+                def workDo(self, tymth=None, tock=0.0, **opts):
+                    log_bm.append("enter")
+                    try:
+                        while True:
+                            yield
+                            log_bm.append("recur")
+                    finally:
+                        log_bm.append("exit")
+            w = W()
+            holder_bm = {}
+
+            @_doing.doize(tock=0.0)
+            def ctlDo(tymth=None, tock=0.0, **opts):
+                yield
+                if frm_bm == "inside":
+                    holder_bm["sched_bm"].extend([w.workDo])
+                yield
+                return True
+            if host_bm == "doist":
+                sched_bm = _doing.Doist(tock=1.0, real=False, limit=3.0, doers=[w.workDo, ctlDo])
+                holder_bm["sched_bm"] = sched_bm
+                sched_bm.enter()
+                if frm_bm == "outside":
+                    sched_bm.extend([w.workDo])
+                for _ in range(3):
+                    sched_bm.recur()
+                ndoers_bm = len(sched_bm.doers)
+                sched_bm.exit()
+            else:
+                dd_bm = _doing.DoDoer(doers=[w.workDo, ctlDo], always=True)
+                holder_bm["sched_bm"] = dd_bm
+                outer_bm = _doing.Doist(tock=1.0, real=False, limit=3.0, doers=[dd_bm])
+                outer_bm.enter()
+                if frm_bm == "outside":
+                    dd_bm.extend([w.workDo])
+                for _ in range(3):
+                    outer_bm.recur()
+                ndoers_bm = len(dd_bm.doers)
+                outer_bm.exit()
+            evals += 1
+            inp_bm = dict(scenario="extend with an equal-but-not-identical (bound-method) doer", host=host_bm, called_from=frm_bm)
+            distinct.add(repr(inp_bm))
+            if log_bm.count("enter") != 1 or ndoers_bm != 2:
+                v('C06/extend-present-doer-reentered', inp_bm, dict(enters=log_bm.count("enter"), doers=ndoers_bm, recurs=log_bm.count("recur")), dict(enters=1, doers=2))
     return dict(evaluations=evals, distinct_nontrivial=len(distinct), samples=samples, violations=viol,
                 rule="random flat Doist / DoDoer(always=True) hosts with 2..4 doers whose scripts call extend/remove (self, siblings, spare, "
                      "duplicates, extend-then-remove in one step) from inside recur; limit 8 cycles")
